@@ -13,7 +13,7 @@ var families = map[string]*rt.Family{}
 func sample(units []*rt.Unit, rng *rand.Rand, keep func(*rt.Unit) bool, frac float64) []*rt.Unit {
 	var out []*rt.Unit
 	for _, u := range units {
-		if keep(u) || rng.Float64() < frac {
+		if k, _ := u.Raw["keep"].(bool); k || keep(u) || rng.Float64() < frac {
 			out = append(out, u)
 		}
 	}
